@@ -2259,7 +2259,7 @@ package gomatrixserverlib
 //@   loop 1: invariant 0 <= i && i <= len(input) && !lxStr(old(str(input)), i) && !lxEsc(old(str(input)), i) && str(input) == old(str(input)) && ref(output) != ref(input)
 //@   loop 2: invariant 0 <= i && i <= len(input) && lxStr(old(str(input)), i) && !lxEsc(old(str(input)), i) && str(input) == old(str(input)) && ref(output) != ref(input)
 //@   loop 2: invariant len(output) > athead(1, len(output)) && output[athead(1, len(output))] == 34
-//@   loop 1: step sign-kept-unless-before-a-lone-zero: (old(input[i]) == 45 && !(input[old(i)+1] == 48 && !(old(i)+2 < len(input) && (input[old(i)+2] == 46 || input[old(i)+2] == 101 || input[old(i)+2] == 69)))) ==> (len(output) > old(len(output)) && output[old(len(output))] == 45)
+//@   loop 1: step sign-kept-unless-it-begins-the-number-minus-zero: (old(input[i]) == 45 && !(input[old(i)+1] == 48 && !(old(i)+2 < len(input) && (input[old(i)+2] == 46 || input[old(i)+2] == 101 || input[old(i)+2] == 69)) && !(old(i) >= 1 && (input[old(i)-1] == 101 || input[old(i)-1] == 69)))) ==> (len(output) > old(len(output)) && output[old(len(output))] == 45)
 //@   loop 1: step other-bytes-outside-strings-are-kept: (old(input[i]) > 32 && old(input[i]) != 45) ==> (len(output) > old(len(output)) && output[old(len(output))] == old(input[i]))
 
 // ---------------------------------------------------------------- C19: the key-fetching worker pool
